@@ -52,7 +52,7 @@ def generate(rng, tier, idx):
     info = g['info']
     edits = GU.gen_edits(rng, info, rng.choice([0, 1, 1, 2, 3]))
     opt = rng.choice(['unset', 'unset', 'on', 'on', 'off'])
-    keyid = rng.choice([None, None, 'signer', 'other', 'expiring', 'unknown'])
+    keyid = rng.choice([None, None, 'signer', 'other', 'expiring', 'unknown', 'other-uid'])      # ('other-uid': the key named by its user id, which contains a blank)
     # a second update+save on the SAME loader object (long-running caller); data-file edits only
     round2 = None
     if rng.random() < 0.3:
@@ -132,6 +132,8 @@ def run_world(sc, sign, keyid, fault, orig_signed):
         kid = None
         if keyid == 'unknown':
             kid = '0xDEADBEEFDEADBEEF'
+        elif keyid == 'other-uid':
+            kid = 'verif other'
         elif keyid:
             kid = '0x' + GS.FPR[keyid]
         try:
@@ -268,6 +270,10 @@ def execute(sc):
                         violations.append(viol('sign.signature-does-not-verify', '%s: gpg rejects the saved top-level Manifest' % what, sig='gpg'))
                     else:
                         want_key = GS.FPR[keyid] if keyid in ('signer', 'other') else None
+                        if keyid == 'other-uid':
+                            want_key = GS.FPR['other']
+                        if getattr(GS.gpg_cleartext, 'n_sigs', 1) != 1:
+                            violations.append(viol('sign.extra-signature', '%s: the saved top-level Manifest carries %d signatures' % (what, GS.gpg_cleartext.n_sigs), sig='n'))
                         if keyid is None:
                             want_key = default_fpr()      # no key id given: GnuPG's default key, whoever signed before
                         if want_key and fpr != want_key:
